@@ -78,7 +78,19 @@ theorem storeBlock_err (env : Env L) (s s' : Node L) (b : Block) (e : Err)
   · rename_i l' hl
     split at h
     · cases h
-    · cases h; exact ⟨Or.inr ⟨⟨l', hl⟩, rfl⟩, rfl⟩
+    · cases h; exact ⟨Or.inl rfl, rfl⟩
+
+/-- a failing storeBlock leaves the node as it was -/
+theorem storeBlock_err_same (env : Env L) (s s' : Node L) (b : Block) (e : Err)
+    (h : storeBlock env s b = (s', some e)) : s' = s ∧ e = .store := by
+  unfold storeBlock at h
+  split at h
+  · cases h; exact ⟨rfl, rfl⟩
+  split at h
+  · cases h; exact ⟨rfl, rfl⟩
+  · split at h
+    · cases h
+    · cases h; exact ⟨rfl, rfl⟩
 
 theorem storeBlock_ok (env : Env L) (s s' : Node L) (b : Block)
     (h : storeBlock env s b = (s', none)) :
@@ -174,6 +186,18 @@ theorem bodyStep_err (env : Env L) (s s' : Node L) (b : Block) (e : Err)
         rcases h1 with h1 | ⟨h1, h3⟩
         · exact Or.inl h1
         · exact Or.inr ⟨h2, h1, h3⟩
+
+/-- a failing body step leaves the node as it was -/
+theorem bodyStep_err_same (env : Env L) (s s' : Node L) (b : Block) (e : Err)
+    (h : bodyStep env s b = (s', some e)) : s' = s := by
+  unfold bodyStep at h
+  split at h
+  · cases h; rfl
+  · split at h
+    · cases h; rfl
+    · split at h
+      · cases h; rfl
+      · exact (storeBlock_err_same env s s' b e h).1
 
 /-- headers are stored under their index -/
 def Indexed (hs : List Header) : Prop := ∀ (i : Nat) (h : Header), hs[i]? = some h → h.index = i
